@@ -84,6 +84,19 @@ fn table() -> Vec<(&'static str, Vec<&'static str>, Vec<(&'static str, Vec<&'sta
     ]
 }
 
+/// `all_bvs()` with `--format` kept only on the default Rust variant: formatting (syn +
+/// prettyplease over the finished text) is 3/4 of the Rust generator's run time and is
+/// independent of the other options, so every world goes through it once, not seven times.
+pub fn bvs_format_once() -> Vec<Bv> {
+    let mut v = all_bvs();
+    for b in v.iter_mut() {
+        if b.backend == "rust" && !b.variant.is_empty() {
+            b.args.retain(|a| *a != "--format");
+        }
+    }
+    v
+}
+
 pub fn all_bvs() -> Vec<Bv> {
     let mut out = Vec::new();
     for (backend, base, variants) in table() {
